@@ -324,6 +324,26 @@ Definition set_pp (h : heap) (rt : option Z) (pp : option (Z * bool)) (v : optio
   | None => (h, v)
   end.
 
+(* "Replace n with in-order successor" of zix_tree_remove: replace (with parent rp) is unlinked and
+   put in n's place; returns the heap, t->root, to_balance and d_balance *)
+Definition h_replace (h : heap) (rt : option Z) (n rep rp : Z) : heap * option Z * Z * Z :=
+  let pp := match parent h n with Some g => Some (g, ptr_is (left h g) n) | None => None end in
+  (* Remove replace from parent (replace_p) *)
+  let isl := ptr_is (left h rp) rep in
+  let dbal := if isl then 1 else -1 in
+  let h1 := if isl then set_left h rp (right h rep) else set_right h rp (right h rep) in
+  let tb := if rp =? n then rep else rp in            (* if (to_balance == n) to_balance = replace *)
+  (* if (replace->right) replace->right->parent = replace->parent; *)
+  let h2 := match right h1 rep with Some c => set_parent h1 c (parent h1 rep) | None => h1 end in
+  let h3 := set_bal h2 rep (bal h2 n) in              (* replace->balance = n->balance *)
+  let '(h4, rt4) := set_pp h3 rt pp (Some rep) in     (* *pp = replace / t->root = replace *)
+  let h5 := set_parent h4 rep (parent h4 n) in        (* replace->parent = n->parent *)
+  let h6 := set_left h5 rep (left h5 n) in            (* replace->left = n->left *)
+  let h7 := match left h6 n with Some c => set_parent h6 c (Some rep) | None => h6 end in
+  let h8 := set_right h7 rep (right h7 n) in          (* replace->right = n->right *)
+  let h9 := match right h8 n with Some c => set_parent h8 c (Some rep) | None => h8 end in
+  (h9, rt4, tb, dbal).
+
 (* zix_tree_remove(t, n) for a node n of the heap: new state, destroy log, rotation log *)
 Definition h_remove (n : Z) (st : hstate) : option (hstate * list item * list Z) :=
   let h := hp st in
@@ -364,27 +384,13 @@ Definition h_remove (n : Z) (st : hstate) : option (hstate * list item * list Z)
       | None => None
       end
   | Some l, Some r =>
-      let pp := match parent h n with Some g => Some (g, ptr_is (left h g) n) | None => None end in
       match h_leftmost (fuel_of st) h r with
       | None => None
       | Some rep =>
           match parent h rep with
           | None => None        (* replace->parent is never NULL: replace is below n *)
           | Some rp =>
-              (* Remove replace from parent (replace_p) *)
-              let isl := ptr_is (left h rp) rep in
-              let dbal := if isl then 1 else -1 in
-              let h1 := if isl then set_left h rp (right h rep) else set_right h rp (right h rep) in
-              let tb := if rp =? n then rep else rp in            (* if (to_balance == n) to_balance = replace *)
-              (* if (replace->right) replace->right->parent = replace->parent; *)
-              let h2 := match right h1 rep with Some c => set_parent h1 c (parent h1 rep) | None => h1 end in
-              let h3 := set_bal h2 rep (bal h2 n) in              (* replace->balance = n->balance *)
-              let '(h4, rt4) := set_pp h3 (hroot st) pp (Some rep) in     (* *pp = replace / t->root = replace *)
-              let h5 := set_parent h4 rep (parent h4 n) in        (* replace->parent = n->parent *)
-              let h6 := set_left h5 rep (left h5 n) in            (* replace->left = n->left *)
-              let h7 := match left h6 n with Some c => set_parent h6 c (Some rep) | None => h6 end in
-              let h8 := set_right h7 rep (right h7 n) in          (* replace->right = n->right *)
-              let h9 := match right h8 n with Some c => set_parent h8 c (Some rep) | None => h8 end in
+              let '(h9, rt4, tb, dbal) := h_replace h (hroot st) n rep rp in
               match h_rem_retrace (fuel_of st) h9 rt4 (Some tb) dbal [] with
               | Some (h10, rt10, c) => fin h10 rt10 c
               | None => None
